@@ -150,15 +150,19 @@ def run_c10(t, tier, res):
     if g is None:
         res.violate("C10", "load_rules_failed", {})
         return
-    lmax = 8 if tier == "quick" else 14
+    lmax = (8 if t.chance(1, 2) else 24) if tier == "quick" else 34
     want = {}
+    budget_strings = 40000
     for lvl in range(0, lmax + 1):
         try:
             c = ref.count(lvl)
         except RecursionError:
             c = None
-        if c is not None and c <= 20000:
+        if c is not None and c <= (20000 if lvl <= 8 else 3000):
             want[lvl] = collections.Counter(ref.strings(lvl))
+        budget_strings -= c or 0
+        if budget_strings < 0:
+            break
     if not want:
         res.rejected = "levels_too_large"
         return
